@@ -78,6 +78,17 @@ def enum_jobs(tier):
     return js
 
 
+def sys_jobs(hs, tier):
+    q = tier == "quick"
+    sj = [wmmlib.sys_job(hs, "sys", 0, 2, "l1"), wmmlib.sys_job(hs, "sys", 0, 3, "l1,l2"), wmmlib.sys_job(hs, "sys", 0, 2, "l1,l2,l3,l4,l5"),
+          wmmlib.sys_job(hs, "sysbd", 0, 2, "l1,l2,l3,l4,l5"), wmmlib.sys_job(hs, "sys", 1, 1, "l1", "l1")]
+    if not q:
+        sj += [wmmlib.sys_job(hs, "sys", 0, 3, "l1,l2,l3,l4,l5", deadline=1500), wmmlib.sys_job(hs, "sys", 1, 2, "l1", "l1", deadline=1500),
+               wmmlib.sys_job(hs, "sys", 0, 1, "l1", "l1", deadline=1500), wmmlib.sys_job(hs, "sys", 1, 1, "l1,l2", "l1", deadline=1500),
+               wmmlib.sys_job(hs, "sysbd", 1, 1, "l1,l2,l3,l4", "l1", deadline=1500)]
+    return sj
+
+
 def run(ctx):
     ctx.rule = ("all schedules up to the preemption bound of 2-3 frontend threads x 1-3 operations (small / near-capacity "
                 "statements, flush_log() of another thread, two loggers sharing a sink, thread exit at the end of every script) against the real backend "
@@ -96,13 +107,7 @@ def run(ctx):
     # below Engine B's granularity: the real first use of a thread (context registration), the real log_statement and the real
     # BackendWorker::_poll interleaved at every atomic operation, with every load value the C++11 model admits
     hs = wmmlib.build_sys()
-    q = ctx.tier == "quick"
-    sj = [wmmlib.sys_job(hs, "sys", 0, 2, "l1"), wmmlib.sys_job(hs, "sys", 0, 3, "l1,l2"), wmmlib.sys_job(hs, "sys", 0, 2, "l1,l2,l3,l4,l5"),
-          wmmlib.sys_job(hs, "sysbd", 0, 2, "l1,l2,l3,l4,l5"), wmmlib.sys_job(hs, "sys", 1, 1, "l1", "l1")]
-    if not q:
-        sj += [wmmlib.sys_job(hs, "sys", 0, 3, "l1,l2,l3,l4,l5", deadline=1500), wmmlib.sys_job(hs, "sys", 1, 2, "l1", "l1", deadline=1500),
-               wmmlib.sys_job(hs, "sys", 0, 1, "l1", "l1", deadline=1500), wmmlib.sys_job(hs, "sys", 1, 1, "l1,l2", "l1", deadline=1500),
-               wmmlib.sys_job(hs, "sysbd", 1, 1, "l1,l2,l3,l4", "l1", deadline=1500)]
+    sj = sys_jobs(hs, ctx.tier)
     wmmlib.run_sys(ctx, sj)
     ctx.rule += ("; whole-system exploration at atomic-operation granularity (Engine A): first use of one or two threads (real registration), real log "
                  "calls incl. queue growth / drops, against 1-3 real backend polls, then the backend drains alone: every completed call delivered once, in order")
